@@ -353,6 +353,55 @@ func c14Case(c *core.Ctx, id string) {
 		os.WriteFile(filepath.Join(work, "temp", "stray123"), []byte("partial"), 0o644)
 		os.MkdirAll(filepath.Join(work, "targets"), 0o755)
 		os.WriteFile(filepath.Join(work, "targets", "ghost%2Fnever"), []byte("{}\n"), 0o644)
+		// ... and records of labels that never existed whose file names are neighbours of live records' names: a proper prefix,
+		// an extension, and a file in a directory whose name is a proper prefix of a live directory's name
+		{
+			live := expectedRecords(e)
+			var rels []string
+			for rel := range live {
+				rels = append(rels, rel)
+			}
+			sort.Strings(rels)
+			planted := 0
+			for k := 0; k < len(rels) && planted < 6; k++ {
+				rel := rels[(k*7+step)%len(rels)]
+				full := filepath.Join(work, rel)
+				if _, err := os.Stat(full); err != nil {
+					continue
+				}
+				var cands []string
+				if b := filepath.Base(rel); len(b) > 1 {
+					cands = append(cands, filepath.Join(filepath.Dir(rel), b[:len(b)-1]))
+				}
+				cands = append(cands, rel+"x", rel+"0")
+				if d := filepath.Dir(rel); len(filepath.Base(d)) > 1 && strings.Count(d, "/") >= 1 {
+					cands = append(cands, filepath.Join(d[:len(d)-1], "ghost"))
+				}
+				for _, cand := range cands {
+					if live[cand] {
+						continue
+					}
+					cf := filepath.Join(work, cand)
+					if _, err := os.Lstat(cf); err == nil {
+						continue
+					}
+					isParent := false
+					for l := range live {
+						if strings.HasPrefix(l, cand+"/") {
+							isParent = true
+						}
+					}
+					if isParent {
+						continue
+					}
+					os.MkdirAll(filepath.Dir(cf), 0o755)
+					if os.WriteFile(cf, []byte("{}\n"), 0o644) == nil {
+						planted++
+						c.Count("neighbour_ghost_records_planted", 1)
+					}
+				}
+			}
+		}
 		// a full load first, so that the records on disk are what a load leaves behind
 		if !preferIndex {
 			pj.Build(pj.BuildReq{Root: s.Root, Args: e.P.Args})
